@@ -56,6 +56,12 @@ type Config struct {
 	LongLits bool
 	// BigClasses allows character classes listing nine to sixteen single characters.
 	BigClasses bool
+	// UniNames uses rule names with letters outside ASCII (Größe, Жук, 名前).
+	UniNames bool
+	// DeepNest puts a new first rule `Nest <- "(" Nest ")" / Start` in front of
+	// the grammar: an input of k opening parentheses has k+1 rules active at
+	// once (not with LeftRec or TopLoop).
+	DeepNest bool
 	// TopLoop puts a new first rule `Top <- ( . Start? )*` (with an action when
 	// Actions is set) in front of the grammar, so that an input of n characters
 	// makes the parser run for at least n rounds: long parses with thousands of
@@ -561,6 +567,12 @@ func Generate(r Rand, cfg Config) *Grammar {
 			}
 			g.Rules[0].Expr = &Expr{Kind: Seq, Subs: []*Expr{loop, g.Rules[0].Expr}}
 		}
+		if cfg.DeepNest && !cfg.LeftRec && !cfg.TopLoop {
+			inner := &Expr{Kind: Seq, Subs: []*Expr{{Kind: Lit, Text: "("}, {Kind: Ref, Name: "Nest"}, {Kind: Lit, Text: ")"}}}
+			body := &Expr{Kind: Choice, Subs: []*Expr{inner, {Kind: Ref, Name: g.Rules[0].Name}}}
+			nest := &Rule{Name: "Nest", Expr: body}
+			g.Rules = append([]*Rule{nest}, g.Rules...)
+		}
 		if cfg.TopLoop && !cfg.LeftRec {
 			unit := &Expr{Kind: Seq, Subs: []*Expr{{Kind: Any}, {Kind: Opt, Subs: []*Expr{{Kind: Ref, Name: g.Rules[0].Name}}}}}
 			if cfg.Actions {
@@ -606,6 +618,9 @@ func generateOnce(r Rand, cfg Config) *Grammar {
 	}
 	if cfg.DigitNames {
 		ruleNames = []string{"Start", "A", "A1", "A11", "A2", "A12", "A1_", "A111"}
+	}
+	if cfg.UniNames {
+		ruleNames = []string{"Start", "Größe", "Ünit", "Жук", "名前", "Ça", "Ωmega", "Éé"}
 	}
 	if n > len(ruleNames) {
 		n = len(ruleNames)
@@ -919,6 +934,31 @@ func (g *Grammar) SampleInput(r Rand, maxLen int) []byte {
 		for len(b) > 0 && !utf8.Valid(b) {
 			b = b[:len(b)-1]
 		}
+	}
+	return b
+}
+
+// IsDeepNest reports whether the grammar was made with Config.DeepNest.
+func (g *Grammar) IsDeepNest() bool {
+	return len(g.Rules) > 1 && g.Rules[0].Name == "Nest" && g.Rules[0].Expr.Kind == Choice
+}
+
+// SampleNestedInput makes an input for a grammar made with Config.DeepNest:
+// depth opening parentheses, something the old start rule is likely to match,
+// and the closing ones (sometimes one too few).
+func (g *Grammar) SampleNestedInput(r Rand, depth int) []byte {
+	sub := &Grammar{Rules: g.Rules[1:]}
+	var b []byte
+	for i := 0; i < depth; i++ {
+		b = append(b, '(')
+	}
+	b = append(b, sub.SampleInput(r, 16)...)
+	closing := depth
+	if r.Intn(4) == 0 && closing > 0 {
+		closing--
+	}
+	for i := 0; i < closing; i++ {
+		b = append(b, ')')
 	}
 	return b
 }
